@@ -16,6 +16,8 @@ pub struct Framing {
 }
 
 const SYS_MODE: u32 = 7;
+/// C07 only: a slice of the seeded runs goes over the real tokio / smol Unix sockets.
+const REAL_SOCKET_MODE: u32 = 6;
 
 fn short_res(r: &Res) -> String {
     let s = format!("{r:?}");
@@ -46,7 +48,13 @@ impl Prop for Framing {
         // ---- scenario from the tape
         let (script, mode_desc) = {
             let mut w = world.borrow_mut();
-            let systematic = w.tape.draw(8) as u32 == SYS_MODE;
+            let first = w.tape.draw(8) as u32;
+            if self.cancel && first == REAL_SOCKET_MODE && w.tape.draw(3) == 0 {
+                let smol = w.tape.draw(2) == 1;
+                drop(w);
+                return crate::props::c19::run_receive_abandonment_on_real_sockets(world, smol);
+            }
+            let systematic = first == SYS_MODE;
             if systematic {
                 let corpus = all_corpus();
                 let idx = w.tape.draw(corpus.len());
@@ -313,10 +321,19 @@ impl Prop for Framing {
         }
     }
 
+    fn watchdog_secs(&self) -> Option<u64> {
+        // C07's real-socket slice issues syscalls
+        if self.cancel {
+            Some(120)
+        } else {
+            None
+        }
+    }
+
     fn rule(&self) -> String {
         let base = "Each execution = one scripted peer stream (1..8 non-empty NUL-terminated frames — one run in sixteen up to 300 frames, one in sixteen with frames of 1..90 kB around 2^15, 2^16 and far growth steps — valid / wrong-shape / malformed / whitespace-padded, for six receive target types, sizes steered onto the 256-byte growth steps) x one partition of the stream into deliveries x one schedule of reads (short reads, spurious pending, coalescing). Systematic part: a fixed corpus of short streams with every single cut and every pair of cuts, whole and byte-by-byte. Non-trivial = at least one partial delivery, short read, pending-despite-data or cancellation actually happened; distinct = distinct hash of the (event kind, actor) sequence of the run.";
         if self.cancel {
-            format!("{base} C07 adds: the pending receive future is dropped at tape-chosen Pending polls (every k-th for every k in the systematic part; probabilistic in the seeded part) and a fresh receive is started.")
+            format!("{base} C07 adds: the pending receive future is dropped at tape-chosen Pending polls (every k-th for every k in the systematic part; probabilistic in the seeded part) and a fresh receive is started. One seeded run in twenty-four runs the same question over the real transports instead: duplex connections on real tokio / smol Unix sockets (socketpair or bound listener, SO_SNDBUF 4 KiB..default, messages up to 100 kB), every syscall issued by this thread in tape order, receivers abandoning pending receives at the transport crates' own suspension points; decoded sequence must equal sent sequence.")
         } else {
             base.to_string()
         }
@@ -326,6 +343,7 @@ impl Prop for Framing {
         json!({
             "real": ["zlink_core::Connection", "ReadConnection::{receive_call, receive_reply, read_message, read_from_socket}", "Call/Reply deserialisers", "ReplyError derive output", "serde_json"],
             "stub": ["SimSocket/SimReadHalf (ours, behind zlink's ReadHalf trait)", "scripted peer", "executor"],
+            "real_in_the_C07_real_socket_slice": ["zlink_tokio::unix::{Stream, ReadHalf, WriteHalf, bind, connect}", "zlink_smol::unix (same)", "tokio current-thread I/O driver / async-io", "Linux AF_UNIX stream sockets"],
         })
     }
 
